@@ -20,7 +20,6 @@ A_LONE = [0xd800, 0xdbff, 0xdc00, 0xdfff, 0xd83d, 0xde00]
 
 SIG_EXPORT = "export-imported-invalid-utf8-returns-original-bytes"
 SIG_LONE = "lone-surrogate-replaced-by-fffd:"
-SIG_TOINT = "imported-utf16-string-ToInteger-ToFloat-not-parsed"
 
 
 def is_hi(c): return 0xd800 <= c <= 0xdbff
@@ -587,9 +586,7 @@ class Check:
             if d.get("lt") != "0" or d.get("gt") != "0" or d.get("cmp") != "0":
                 bad.append("order")
             if bad:
-                if set(bad) <= {"js14", "go8"} and d["u1"] == d["u2"] and sorted((d["t1"], d["t2"])) == ["imp", "uni"]:
-                    fails.append((SIG_TOINT, "ToInteger()/ToFloat() of a Go-imported non-ASCII string answer 0/NaN without parsing, the same string stored as UTF-16 is parsed (units %s)" % d["u1"]))
-                elif bad == ["go10"] and d["u1"] == d["u2"] and "imp" in (d["t1"], d["t2"]) and d["x1"] != d["x2"] and (
+                if bad == ["go10"] and d["u1"] == d["u2"] and "imp" in (d["t1"], d["t2"]) and d["x1"] != d["x2"] and (
                         not valid_utf8(bytes.fromhex(d["x1"][1:])) or not valid_utf8(bytes.fromhex(d["x2"][1:]))):
                     fails.append((SIG_EXPORT, "Export() of an imported string holding invalid UTF-8 returns the original bytes; an equal string in another representation exports U+FFFD"))
                 else:
